@@ -2,7 +2,12 @@
    partitions -> log, and the run of a history of calls against one image.  Shared by the model side of
    the correspondence check and by the oracle (which replays the environment part only).
    Definitions only. *)
-Require Import V.Base.MachineInt V.Generated.GenConsts V.Model.LogBase V.Model.Descriptor V.Model.Reader V.Model.Image.
+Require Import V.Base.MachineInt.
+Require Import V.Generated.GenConsts.
+Require Import V.Model.LogBase.
+Require Import V.Model.Descriptor.
+Require Import V.Model.Reader.
+Require Import V.Model.Image.
 Open Scope Z_scope.
 
 Definition STREAM : Z := 1001.
